@@ -1,3 +1,5 @@
+# Merges the per-seed lines of tools/seedsuite.sh runs (logs kept under /var/tmp while a session runs) into seeded/SUITE_RESULT.txt;
+# the logs are scratch files: re-create them with tools/seedsuite.sh before running this again.
 import re,subprocess
 res={}
 for f in ['/var/tmp/seedsuite.log','/var/tmp/suiteB.log','/var/tmp/suiteC.log','/var/tmp/suiteA.log','/var/tmp/suiteD.log']:
